@@ -80,13 +80,15 @@ func computeThreading(fn *ssa.Function) {
 		if !ok || phi.Block() != b {
 			continue
 		}
+		// the constant edges are threaded; at most one non-constant edge may remain
+		// (`c := a && b; if c` — from that predecessor the branch is `if b`)
 		m := map[*ssa.BasicBlock]int{}
-		okAll := true
+		nonConst := 0
 		for i, e := range phi.Edges {
 			c, ok := e.(*ssa.Const)
 			if !ok || c.Value == nil || c.Value.Kind() != constant.Bool {
-				okAll = false
-				break
+				nonConst++
+				continue
 			}
 			v := constant.BoolVal(c.Value)
 			if neg {
@@ -98,10 +100,65 @@ func computeThreading(fn *ssa.Function) {
 			}
 			m[b.Preds[i]] = slot
 		}
-		if okAll {
+		if nonConst <= 1 && len(m) > 0 {
 			threadMap[b] = m
+			if nonConst == 1 {
+				namedBranch[b] = true
+			}
 		}
 	}
+}
+
+// namedCondition: the If of a block that holds only phis and branches on a boolean phi
+// whose edges are constants except one (`c := a && b; …; if c`, `c := a || b`): returns the
+// value V brought by the non-constant predecessor, that predecessor, whether the branch
+// condition negates the phi, and the successor slot the constant entries take.
+func namedCondition(iff *ssa.If) (v ssa.Value, pred *ssa.BasicBlock, neg bool, constSlot int, ok bool) {
+	b := iff.Block()
+	for _, in := range b.Instrs[:len(b.Instrs)-1] {
+		if _, isPhi := in.(*ssa.Phi); !isPhi {
+			return nil, nil, false, 0, false
+		}
+	}
+	cond := iff.Cond
+	for {
+		u, isU := cond.(*ssa.UnOp)
+		if !isU || u.Op != token.NOT {
+			break
+		}
+		cond, neg = u.X, !neg
+	}
+	phi, isPhi := cond.(*ssa.Phi)
+	if !isPhi || phi.Block() != b {
+		return nil, nil, false, 0, false
+	}
+	constSlot = -1
+	for i, e := range phi.Edges {
+		c, isC := e.(*ssa.Const)
+		if isC && c.Value != nil && c.Value.Kind() == constant.Bool {
+			val := constant.BoolVal(c.Value)
+			if neg {
+				val = !val
+			}
+			slot := 1
+			if val {
+				slot = 0
+			}
+			if constSlot >= 0 && constSlot != slot {
+				return nil, nil, false, 0, false
+			}
+			constSlot = slot
+			continue
+		}
+		if v != nil {
+			return nil, nil, false, 0, false
+		}
+		v, pred = e, b.Preds[i]
+	}
+	if v == nil || constSlot < 0 {
+		return nil, nil, false, 0, false
+	}
+	return v, pred, neg, constSlot, true
 }
 
 // canReach: may control flow from just after a to b (a executes before b on some path)?
